@@ -31,13 +31,33 @@ def make_case(seed, i, tier):
             "n_intf_choices": [2, 3, 3, 4, 5], "maxlength": rng.choice([20, 40, 200])}
     if rng.random() < 0.1:
         prof.update(engine="turtlemd", steps_choices=[12, 20], maxlength=2000)    # energies, xyz files
+    elif rng.random() < 0.3:
+        prof["keep_aux"] = True       # output.keep_traj_fnames: extra files travel with the trajectory files
     scn = SC.gen_scenario(rng, prof)
     scn["plan"] = C.gen_plan(rng, scn, rng.choice(["single", "single", "clean_chain", "crash_chain"]))
     return {"seed": seed, "scn": scn, "props": [PROP]}
 
 
+class StorageDeathMonitor(SS.Monitor):
+    """The main process dying of a file-system error inside its own storage / deletion code."""
+
+    def on_died(self, exc):
+        import traceback
+        if "injected worker failure" in str(exc) or not isinstance(exc, OSError):
+            return
+        tb = traceback.extract_tb(exc.__traceback__)
+        inside = [f for f in tb if f.filename.endswith(("repex.py", "formatter.py")) and
+                  f.name in ("treat_output", "output", "_move_path", "output_path_files")]
+        if inside:
+            self.sim.violate("C14", "storage_operation_killed_run",
+                             f"{type(exc).__name__}: {exc} at {SS._short_tb(exc)} (delete_old="
+                             f"{self.sim.scn.get('delete_old')}, delete_old_all={self.sim.scn.get('delete_old_all')}, "
+                             f"keep_traj_fnames={'.aux' if self.sim.scn.get('keep_aux') else None})",
+                             site="delete_old_all+keep_traj_fnames" if self.sim.scn.get("keep_aux") else None)
+
+
 def monitors(case, inc):
-    return [M.C14Monitor()]
+    return [M.C14Monitor(), StorageDeathMonitor()]
 
 
 def run(case):
